@@ -177,6 +177,11 @@ def k_args(run, case):
             r = m.get_result()
             r.add_trajectory("ref", A)
             r.add_trajectory("est", B)
+            if rng.random() < .5:
+                # user annotations: nested containers, non-finite numbers, None
+                r.info["alignment"] = {"scale": float("nan"), "rotation": [[1.0, 0.0], [0.0, float("inf")]], "ok": None}
+                r.info["thresholds"] = [0.1, float("inf"), -float("inf")]
+                r.stats["custom"] = float("nan")
             guarded(run, case, fname, {"result": r, "traj": A, "traj2": B},
                     lambda: file_interface.save_res_file(io.BytesIO(), r))
             return
